@@ -1,5 +1,6 @@
 import KcpVerif.Lemmas.Sched
 import KcpVerif.Lemmas.SchedSource
+import KcpVerif.Lemmas.SchedLive
 /-!
 C17 — timed scheduler: every task runs exactly once, never early.
 
@@ -12,8 +13,9 @@ Every theorem holds for both modes and every `k` (they are universally quantifie
 
 Tier of each claim: safety (at most once, never dropped, never early, drain never blocks, timer
 armed for the heap minimum, no lost wake-up, no deadlock) is proved; liveness under weak
-fairness is stated (`C17_exactly_once_full`) and only its safety half plus deadlock-freedom is
-proved (`C17_exactly_once_partial`).
+fairness is stated (`C17_exactly_once_full`) and only its safety half, deadlock-freedom and the
+possibility of completion from every reachable state (`C17_can_always_complete`) are proved
+(`C17_exactly_once_partial`).
 -/
 namespace KcpVerif.Props
 open KcpVerif KcpVerif.Sched
@@ -184,6 +186,21 @@ theorem C17_no_deadlock (h : Reachable m k t0 s) (hk : 0 < k) (hp : pendingTasks
     ∃ d l, (∀ id ts, l ≠ .put id ts) ∧ (∀ d', l ≠ .tick d') ∧ (run m s [.tick d, l]).isSome :=
   no_deadlock h hk hp
 
+/-- **no reachable state is doomed** (both modes, any `k ≥ 1`): from every reachable state —
+    whatever interleaving of "timer fired" and "task arrived" led to it — the scheduler can, without
+    any further `Put`, by its own steps, timer firings and the passing of time, reach a state in
+    which every submitted task has been executed exactly once.  (Possibility, not inevitability:
+    that fair runs actually do so is `C17_exactly_once_full`.) -/
+theorem C17_can_always_complete (h : Reachable m k t0 s) (hk : 0 < k) :
+    ∃ ls s', NoPut ls ∧ run m s ls = some s' ∧ pendingTasks s' = [] ∧
+      ∀ t, t ∈ s.sub → (s'.done.map (·.task)).count t = 1 := by
+  obtain ⟨ls, s', hnp, hrun, hfin⟩ := can_complete hk _ h (Nat.le_refl _)
+  refine ⟨ls, s', hnp, hrun, hfin, fun t ht => ?_⟩
+  have hr' : Reachable m k t0 s' := h.run hrun
+  have hsub := (run_noput hrun hnp).1
+  have hone := C17_exactly_one_place hr' t (hsub ▸ ht)
+  simpa [hfin] using hone
+
 /-! ### liveness -/
 
 /-- an infinite run of the scheduler in which submissions eventually pause, every goroutine
@@ -213,8 +230,9 @@ def C17_exactly_once_full : Prop :=
 /-- what is proved of "exactly once": a submitted task is never executed twice and never lost (it
     is in exactly one place: pending somewhere, or executed once), and while it is pending the
     system is not stuck — every worker outside its `select` can step, and some non-`Put` step is
-    enabled after letting time pass.  Missing for the full claim: that fair runs actually take
-    these steps until the task is done (ranking argument, see `C17_exactly_once_full`). -/
+    enabled after letting time pass; moreover completion is always possible
+    (`C17_can_always_complete`).  Missing for the full claim: that fair runs actually take these
+    steps until the task is done (ranking argument, see `C17_exactly_once_full`). -/
 theorem C17_exactly_once_partial (h : Reachable m k t0 s) (hk : 0 < k) (t : Task) (ht : t ∈ s.sub) :
     (s.done.map (·.task)).count t ≤ 1 ∧
     ((s.done.map (·.task)).count t = 0 →
@@ -269,6 +287,13 @@ example : (run .sync (init 1 0) (demoRun.take 21)).map (fun s => s.ws.map (fun w
     with two tasks and the timer armed for the minimum (100), not for the newer task (150) -/
 example : (run .async (init 1 0) (demoRun.take 23)).map (fun s => s.ws.map (fun w => (w.pc, w.heap.length, w.timer.armed))) =
     some [(.select, 2, some 100)] := by decide
+
+/-- `C17_can_always_complete` is not vacuous: after 23 steps two tasks are pending, and the rest of
+    the run is a `Put`-free completion -/
+example : (run .async (init 1 0) (demoRun.take 23)).map (fun s => (pendingTasks s).length) = some 2 := by
+  decide
+example : ((run .async (init 1 0) (demoRun.take 23)).bind (fun s => run .async s (demoRun.drop 23))).map
+    pendingTasks = some [] := by decide
 
 /-- every prefix of the run is a reachable state, so all theorems above apply to it -/
 example : ∃ s, run .async (init 1 0) demoRun = some s ∧ Reachable .async 1 0 s := by
